@@ -147,7 +147,8 @@ def decompress_code(codedata):
             out_i += length
         in_i += 1
 
-    code = bytes(out).strip(b'\x00')
+    # (A block that starts before code_length can run past it.)
+    code = bytes(out[:code_length]).strip(b'\x00')
     if code.endswith(PICO8_FUTURE_CODE1):
         code = code[:-len(PICO8_FUTURE_CODE1)]
         if code[-1] == b'\n'[0]:
